@@ -221,4 +221,25 @@ def histMove : Move → Bool
   | .reload .. => true
   | _ => false
 
+/-! ## The pool table and the records across `ConfigurePool` -/
+
+/-- `insertSubnet(poolIndexSet, …)` as the code does it: every address is mapped to the INDEX of its pool in the sorted
+    configuration, and the index is looked up in the pool table.  `wholeTable` = the table is the sorted configuration
+    itself (regenerated fact `poolIndexIsPositionInPoolTable`; false: pools without addresses are left out of the table
+    while the indices still count them).  The model's `poolSubnets` identifies pools directly. -/
+def poolSubnetsIdx (wholeTable : Bool) (s : State) (ips : List IP) : List Subnet :=
+  (ips.filterMap (fun ip => s.pools.findIdx? (fun p => p.has ip))).foldl
+    (fun acc i =>
+      match (if wholeTable then s.pools else s.pools.filter (fun p => !p.ranges.isEmpty))[i]? with
+      | some p => sunion acc p.nodeSubnets
+      | none => acc) []
+
+/-- the ipinfo of an address whose cached record still hangs off the pool object of an EARLIER configuration `old`
+    (what `toFloatingIPInfo` would answer if ConfigurePool kept records across a reload; the regenerated fact
+    `configurePoolRebuildsEveryRecord` says it does not, so the model's `toHInfo` reads the pools in force) -/
+def toHInfoKept (old : List Pool) (ip : IP) : HInfo :=
+  match poolOf old ip with
+  | some p => { ip := ip, bits := p.bits, gw := p.gateway, vlan := p.vlan }
+  | none => { ip := ip, bits := 0, gw := 0, vlan := 0 }
+
 end Galaxy.Plugin.C06
